@@ -1010,6 +1010,11 @@ type posWriter struct {
 func (w *posWriter) Write(p []byte) (int, error) {
 	n, err := w.w.Write(p)
 	w.pos += int64(n)
+	if err == nil && n < len(p) {
+		// a sink used directly (not through bufio) may break the io.Writer
+		// contract; the callers only look at the error
+		err = io.ErrShortWrite
+	}
 	return n, err
 }
 
